@@ -10,6 +10,7 @@ package mqtt
 //@ end
 
 //@ func wrapErrorImpl
+//@   params err failure
 //@   mode int
 //@   props C19
 //@   pure
@@ -18,6 +19,7 @@ package mqtt
 //@   ensures[C01,C02,C03,C04,C05,C06,C07,C09,C11,C12,C13,C14,C16,C17,C18,C19] err != nil && err != io.EOF ==> asError(result) != nil && fresh(asError(result)) && asError(result).Err == err && asError(result).Failure == failure
 
 //@ func wrapError
+//@   params err failure
 //@   mode int
 //@   props C19
 //@   pure
@@ -26,6 +28,7 @@ package mqtt
 //@   ensures[C01,C02,C03,C04,C05,C06,C07,C09,C11,C12,C13,C14,C16,C17,C19] err != nil && err != io.EOF ==> asError(result) != nil && fresh(asError(result)) && asError(result).Err == err && asError(result).Failure == failure
 
 //@ func wrapErrorf
+//@   params err failureFmt v
 //@   mode int
 //@   props C19
 //@   pure
@@ -36,6 +39,7 @@ package mqtt
 // ---- (*Error) accessors (C19) ----
 
 //@ func (*Error).Unwrap
+//@   params e
 //@   mode int
 //@   props C19
 //@   requires e != nil
@@ -43,6 +47,7 @@ package mqtt
 //@   ensures[C19] cause: result == e.Err
 
 //@ func (*Error).Is
+//@   params e target
 //@   mode int
 //@   props C19
 //@   requires e != nil
@@ -59,6 +64,7 @@ package mqtt
 //@ end
 
 //@ func (*requestContext).Err
+//@   params c
 //@   mode int
 //@   props C18 C19
 //@   requires c != nil && c.Context != nil
